@@ -647,7 +647,48 @@ pub fn corpus(nonce: &str) -> Vec<Vec<Step>> {
             Step::Drop,
         ],
         // bogus events on an empty receiver
-        vec![
+        bogus_history(),
+    ]
+    .into_iter()
+    .chain(accumulated_histories(nonce))
+    .collect()
+}
+
+/// A span accumulates exactly `n` values (at creation, then by records of `chunk` values), the host
+/// loses its spans, and the span is entered: lazy re-creation has to present all `n` values, the first
+/// 32 with `new_span` and the rest by `record`.  Every boundary of the 32-value chunks, with records
+/// that straddle them.
+fn accumulated_histories(nonce: &str) -> Vec<Vec<Step>> {
+    let r = Step::Recv;
+    let mut out = vec![];
+    for (n, first, chunk) in [
+        (31usize, 31usize, 32usize), (32, 32, 32), (33, 32, 1), (33, 1, 32), (47, 10, 13), (48, 16, 16), (49, 7, 21),
+        (63, 32, 31), (64, 32, 32), (65, 32, 32), (65, 5, 30), (66, 22, 22), (95, 31, 32), (96, 32, 32), (97, 32, 32),
+        (100, 0, 25), (100, 32, 17),
+    ] {
+        let mut steps = vec![
+            r(TracingEvent::NewCallSite { id: 0, data: call_site(CallSiteKind::Span, nonce, "acc", 100, false) }),
+            r(TracingEvent::NewSpan { id: 1, parent_id: None, metadata_id: 0, values: vals(0..first.min(n)) }),
+        ];
+        let mut at = first.min(n);
+        while at < n {
+            let next = (at + chunk).min(n);
+            steps.push(r(TracingEvent::ValuesRecorded { id: 1, values: vals(at..next) }));
+            at = next;
+        }
+        steps.push(Step::Persist { keep: false });
+        steps.push(r(TracingEvent::SpanEntered { id: 1 }));
+        steps.push(r(TracingEvent::SpanExited { id: 1 }));
+        steps.push(Step::Persist { keep: false });
+        steps.push(r(TracingEvent::SpanDropped { id: 1 }));
+        out.push(steps);
+    }
+    out
+}
+
+fn bogus_history() -> Vec<Step> {
+    let r = Step::Recv;
+    vec![
             r(TracingEvent::NewSpan { id: 1, parent_id: None, metadata_id: 5, values: vals(0..0) }),
             r(TracingEvent::SpanEntered { id: 1 }),
             r(TracingEvent::SpanExited { id: 1 }),
@@ -656,7 +697,6 @@ pub fn corpus(nonce: &str) -> Vec<Vec<Step>> {
             r(TracingEvent::ValuesRecorded { id: 1, values: vals(0..2) }),
             r(TracingEvent::FollowsFrom { id: 1, follows_from: 2 }),
             r(TracingEvent::NewEvent { metadata_id: 3, parent: None, values: vals(0..33) }),
-        ],
     ]
 }
 
